@@ -20,7 +20,7 @@ const jwtPkg = "github.com/golang-jwt/jwt/v5"
 func init() {
 	register(Property{ID: "C02", Level: "other", Run: runC02,
 		Technique: "static analysis: must-pass-through path conditions on the SSA control-flow graph of the HTTP/JWT authenticators, field coverage of the POST body, origin of the JWT parser arguments and options",
-		Text:      "Decides on all paths of auth.(*Manager).authenticateHTTP / authenticateJWT / pullJWTJWKS / Authenticate, auth.getToken, auth.isHTTP and (*jwtClaims).UnmarshalJSON: an admitting return is reached only when the request is excluded or the POST succeeded with 200<=status<=299 (HTTP), respectively the JWKS were obtained, a token is present, jwt.ParseWithClaims succeeded on that token with the key function of the JWKS and the permission claim grants the request (JWT); a rejecting return follows a failed test; the POST body carries ip,user,password,token,action,path,protocol,query from the like-named request fields; issuer/audience options are installed whenever configured and no validation-weakening parser option is used; registered claims (exp, iss, aud) are decoded and their accessors not overridden; token precedence is token field, password, then query (token before jwt) with the query source guarded by RTSP/RTMP or (flag and HTTP-carried protocol); a missing permission claim is an error. Not decided: signature verification, alg handling and exp arithmetic inside golang-jwt/keyfunc, url.ParseQuery.",
+		Text:      "Decides on all paths of auth.(*Manager).authenticateHTTP / authenticateJWT / pullJWTJWKS / Authenticate, auth.getToken, auth.isHTTP and (*jwtClaims).UnmarshalJSON: an admitting return is reached only when the request is excluded or the POST succeeded with 200<=status<=299 (HTTP), respectively the JWKS were obtained, a token is present, jwt.ParseWithClaims succeeded on that token with the key function of the JWKS and the permission claim grants the request (JWT); a rejecting return follows a failed test; the POST body carries ip,user,password,token,action,path,protocol,query from the like-named request fields; issuer/audience options are installed whenever configured and no validation-weakening parser option is used; registered claims (exp, iss, aud) are decoded and their accessors not overridden; token precedence is token field, password, then query (token before jwt) with the query source guarded by RTSP/RTMP or (flag and HTTP-carried protocol); a missing permission claim is an error; Manager.jwksLastRefresh (which makes the cached key set count as the authority's for one period) is written only as the zero time, or by pullJWTJWKS with time.Now() at a point reached only through a successful GET, decode and NewJWKSetJSON. Not decided: signature verification, alg handling and exp arithmetic inside golang-jwt/keyfunc, url.ParseQuery.",
 		Note:      "trusted: go/types+go/ssa construction; net/http, encoding/json, golang-jwt/jwt/v5 (validates exp/iss/aud of the decoded RegisteredClaims, rejects alg none without the unsafe key), MicahParks/keyfunc"})
 	addMutants(
 		Mutant{"C02", "status-widened-to-399", "internal/auth/manager.go",
@@ -62,6 +62,14 @@ func init() {
 		Mutant{"C02", "jwks-decode-error-ignored", "internal/auth/manager.go",
 			"		tmp, err := keyfunc.NewJWKSetJSON(raw)\n		if err != nil {\n			return nil, err\n		}\n",
 			"		tmp, _ := keyfunc.NewJWKSetJSON(raw)\n", "C02.jwks"},
+		Mutant{"C02", "jwks-marked-fresh-before-download", "internal/auth/manager.go",
+			"		tr := &http.Transport{\n			TLSClientConfig: tls.MakeConfig(m.JWTJWKSFingerprint),",
+			"		m.jwksLastRefresh = now\n		tr := &http.Transport{\n			TLSClientConfig: tls.MakeConfig(m.JWTJWKSFingerprint),", "C02.jwks.fresh"},
+		Mutant{"C02", "jwks-marked-fresh-on-get-failure", "internal/auth/manager.go",
+			"		res, err := httpClient.Get(m.JWTJWKS)\n		if err != nil {\n			return nil, err",
+			"		res, err := httpClient.Get(m.JWTJWKS)\n		if err != nil {\n			m.jwksLastRefresh = now\n			return nil, err", "C02.jwks.fresh"},
+		Mutant{"C02", "jwks-marked-fresh-by-reload", "internal/auth/manager.go",
+			"	m.jwksLastRefresh = time.Time{}\n", "	m.jwksLastRefresh = time.Now().Add(-jwksRefreshPeriod / 2)\n", "C02.jwks.fresh"},
 	)
 }
 
@@ -94,7 +102,7 @@ func runC02(c *Ctx) {
 	if p == nil {
 		return
 	}
-	c.Explain = "E1 must-pass-through rules over auth.(*Manager).authenticateHTTP/authenticateJWT/pullJWTJWKS/Authenticate, auth.getToken, auth.isHTTP, (*auth.jwtClaims).UnmarshalJSON; E3 coverage of the POST body struct (fields, json tags, sources); E5 origin of the arguments and options of jwt.ParseWithClaims; type-level rule that jwtClaims does not override the registered-claims accessors; module-wide absence of jwt.UnsafeAllowNoneSignatureType; who-may-write Manager.jwtKeyFunc. " +
+	c.Explain = "E1 must-pass-through rules over auth.(*Manager).authenticateHTTP/authenticateJWT/pullJWTJWKS/Authenticate, auth.getToken, auth.isHTTP, (*auth.jwtClaims).UnmarshalJSON; E3 coverage of the POST body struct (fields, json tags, sources); E5 origin of the arguments and options of jwt.ParseWithClaims; type-level rule that jwtClaims does not override the registered-claims accessors; module-wide absence of jwt.UnsafeAllowNoneSignatureType; who-may-write Manager.jwtKeyFunc and Manager.jwksLastRefresh (a refresh time is recorded only after a successful download on every path). " +
 		"Not decided: signature verification, alg selection and exp/nbf arithmetic in golang-jwt and keyfunc, url.ParseQuery, the HTTP client."
 	c.Assume = []string{
 		"golang-jwt/jwt/v5 ParseWithClaims verifies the signature with the supplied key function and validates exp/iss/aud of the claims object",
@@ -435,6 +443,39 @@ func (c *Ctx) c02JWKS(p *Prog) {
 		}
 	}
 	c.Floor("C02.jwks.keyfunc.stores", n, 1)
+	// who may write Manager.jwksLastRefresh: the refresh time decides for one
+	// period that the cached key set IS the authority's key set. It may be
+	// reset to the zero time anywhere (forces a download); any other value
+	// marks the cache fresh and is therefore legitimate only at a point that
+	// every path reaches through a successful download, decode and parse -
+	// otherwise a failed refresh (after a key rotation) leaves the withdrawn
+	// keys in force for a whole period.
+	nFresh := 0
+	for _, f := range p.ModFuncs() {
+		for _, st := range fieldStores(f, "auth.Manager", "jwksLastRefresh") {
+			d := desc(st.Val)
+			if cst, isC := st.Val.(*ssa.Const); isC && cst.Value == nil {
+				c.Check("C02.jwks.fresh", "store of the zero time to Manager.jwksLastRefresh in "+fnName(f)+" (forces a download)", true, p.Pos(st.Pos()), d)
+				continue
+			}
+			nFresh++
+			site := "store of a refresh time to Manager.jwksLastRefresh in " + fnName(f)
+			if !c.Check("C02.jwks.fresh", site+" is made by pullJWTJWKS", f == fn, p.Pos(st.Pos()), "only the function that downloads the key set may declare it fresh") {
+				continue
+			}
+			c.Check("C02.jwks.fresh", site+" records the current time", d == "time.Now()", p.Pos(st.Pos()), "got "+d+"; a later time keeps a key set in force beyond the refresh period")
+			sto := st
+			tgt := func(i ssa.Instruction) bool { return i == ssa.Instruction(sto) }
+			for _, s := range []struct{ what, atom string }{
+				{"GET error is nil", errNilAtom(get, 1)},
+				{"body decoded", "(" + desc(dec) + " == nil)"},
+				{"NewJWKSetJSON error is nil", errNilAtom(nj, 1)},
+			} {
+				c.mustPassPred(p, fn, "C02.jwks.fresh", site+" ⇒ "+s.what, tgt, litAny(T(s.atom)))
+			}
+		}
+	}
+	c.Floor("C02.jwks.fresh.stores", nFresh, 1)
 	// alg none requires this constant as key; nothing in the module may mention it
 	uses := 0
 	var where string
